@@ -789,7 +789,8 @@ func (s *scanner) nextItem() bool {
 					if s.curr == '*' {
 						s.nextChar()
 						s.name = "*"
-					} else if isName(s.curr) {
+					} else if isName(s.curr) && unicode.Is(first, s.curr) {
+						// the local part must begin with a name start character ("a:1" is not a name)
 						s.name = s.scanName()
 					} else {
 						panic(fmt.Sprintf("%s has an invalid qualified name.", s.text))
